@@ -341,3 +341,53 @@ func VH_C10_ItemCountLargeFolder_sym() {
 	vAssert("count_ok", err == nil && len(count) == 2)
 	vAssert("announced_count_is_number_of_visible_items", int(count[0])<<8|int(count[1]) == n)
 }
+
+// Folder upload of [file f.bin, folder sub, file sub/g.bin] delivered as fast as the server reads: two files in one
+// transfer (whatever is read past the end of the first file belongs to the next item) and a file one level down
+// whose partial upload, if there is one, is found where it lies (under sub/) and resumed from its length.
+func VH_C10_FolderUploadTwoFilesOneNested_sym() {
+	vUnroll(200)
+	vNSNames, vNSData, vNSWrites, vNSDirs = []string{"/r/up", "/r/up/sub"}, [][]byte{nil, nil}, 0, nil
+	const f1, g, gPartial = "/r/up/f.bin", "/r/up/sub/g.bin", "/r/up/sub/g.bin.incomplete"
+	nestedPartial := vBool("nested_file_has_partial")
+	prev := vBytesN("partial_old", 2)
+	if nestedPartial {
+		vNSNames = append(vNSNames, gPartial)
+		vNSData = append(vNSData, prev)
+	} else {
+		prev = nil
+	}
+	d1 := vBytesN("data_first", 3)
+	d2 := vBytesN("data_nested", 2)
+	in := c10ItemHeader(false, "f.bin")
+	s1 := c02UploadStream([]byte("f.bin"), d1)
+	in = append(in, refU32(len(s1))...)
+	in = append(in, s1...)
+	in = append(in, c10ItemHeader(true, "sub")...)
+	in = append(in, c10ItemHeader(false, "sub", "g.bin")...)
+	s2 := c02UploadStream([]byte("g.bin"), d2)
+	in = append(in, refU32(len(s2))...)
+	in = append(in, s2...)
+	c := &vScriptRW{in: in}
+	ft := &FileTransfer{bytesSentCounter: &WriteCounter{}, FolderItemCount: []byte{0, 3}}
+	err := UploadFolderHandler(c, "/r/up", ft, &vNSStore{}, vLogger(), false)
+	vAssert("two_file_upload_ok", err == nil)
+	i1, i2 := c10Find(f1), c10Find(g)
+	vAssert("first_file_published", i1 >= 0)
+	vAssert("nested_file_published", i2 >= 0)
+	vAssert("no_partials_left", c10Find(gPartial) < 0 && c10Find(f1+".incomplete") < 0)
+	if i1 >= 0 {
+		vAssertEqBytes("first_file_is_what_was_sent", vNSData[i1], d1)
+	}
+	if i2 >= 0 {
+		vAssertEqBytes("nested_file_is_old_prefix_plus_sent", vNSData[i2], append(append([]byte(nil), prev...), d2...))
+	}
+	// dialogue: next, [first file] send, next, [sub] next, [nested file] send or resume(+58 bytes of resume data), next
+	out := c.out
+	vAssert("first_file_requested", len(out) >= 4 && out[1] == 3 && out[3] == 1)
+	if nestedPartial {
+		vAssert("nested_partial_is_resumed_from_its_length", len(out) == 2+2+2+2+2+2+58+2 && out[9] == 2 && out[12+46] == 0 && out[12+47] == 0 && out[12+48] == 0 && out[12+49] == 2)
+	} else {
+		vAssert("nested_new_file_requested", len(out) == 2+2+2+2+2+2 && out[9] == 1)
+	}
+}
